@@ -125,7 +125,10 @@ def r1_kneighbors(ctx):
             if gi is not None and gi[0] == "sub" and gi[1] == Q.self_attr("data_"):
                 ok_data = True
                 idx = Q.unwrap(gi[2], funcs={"numpy.atleast_2d", "numpy.ravel"}, methods={"ravel"})
-                while idx[0] == "attr" and idx[2] == "T":
+                def newaxis_only(ix):
+                    return ix[0] == "tuple" and all(x == ("slice", NONE, NONE, NONE) or x == NONE or (x[0] == "glob" and x[1] == "numpy.newaxis") for x in ix[1])
+                while (idx[0] == "attr" and idx[2] == "T") or (idx[0] == "sub" and newaxis_only(idx[2])):
+                    # np.atleast_2d(indices).T and indices[:, np.newaxis] both only add an axis
                     idx = Q.unwrap(idx[1], funcs={"numpy.atleast_2d", "numpy.ravel"}, methods={"ravel"})
                 if idx[0] == "sub" and idx[1] == q and is_int(idx[2]):
                     ok_idx = True if idx[2][1] == 1 else False
